@@ -208,7 +208,7 @@ def r2(ctx):
             ctx.ok(R, 'is_sane rejects: %s' % desc[n], where(body, found[n][0][0]))
         else:
             ctx.violation(R, SANE + ':missing:' + n, 'is_sane has no rejection for "%s": such a position is accepted' % desc[n], where(body))
-    ctx.floor(R, '`return false` sites in is_sane', nfalse, 11)
+    ctx.floor(R, '`return false` sites in is_sane', nfalse, 8)
     # the union closure
     cl = [k for k in ctx.facts().bodies if k.startswith(SANE + '::{closure#') and '{promoted' not in k]
     okc = False
@@ -275,7 +275,7 @@ def r4(ctx, config='default'):
                 else:
                     ctx.violation(R, key + ':unreachable_unchecked', 'unreachable_unchecked is not behind an exhaustive switch on a masked value: undefined behaviour if reached',
                                   where(body, c['line']))
-    ctx.floor(R, 'unchecked index / unreachable sites (%s)' % config, n, 49)
+    ctx.floor(R, 'unchecked index / unreachable sites (%s)' % config, n, 30)
     # the Square < 64 invariant
     adt = f.adts.get('square::Square')
     if adt['variants'][0]['fields'][0]['pub']:
@@ -425,7 +425,7 @@ def r5(ctx, bounds):
         ctx.violation(R, '%s:push-site' % k0[0], 'a push_unchecked site is not one of: per-piece loop over pinned/unpinned pieces, en-passant loop, single king entry (%s)' % k0[2],
                       '%s:%s' % (f.body(k0[0]).file, k0[1]))
         return
-    ctx.floor(R, 'push_unchecked sites', npush, 8)
+    ctx.floor(R, 'push_unchecked sites', npush, 5)
     men = []
     for n in ('men-bound-white', 'men-bound-black'):
         men.append(bounds.get(n, 63) if bounds else 63)
